@@ -48,6 +48,8 @@ inductive Err
   | badValue        -- the reply to get-value is not an assignment list
   | hang            -- readline on a pipe on which nothing will ever arrive
   | closed          -- the solver was exited (I/O on closed file)
+  | indexError      -- `declared_vars.pop()` / `declared_vars[-1]` on an empty stack (only a solver that accepts a pop
+                    -- beyond its stack can get the wrapper there)
   deriving DecidableEq, Repr
 
 structure WState (S : Solver) where
@@ -110,18 +112,23 @@ def inAny {α : Type} [DecidableEq α] (ls : List (List α)) (x : α) : Bool := 
 
 /-- `self.declared_xxx[-1].add(x)` -/
 def addTop {α : Type} (x : α) : List (List α) → List (List α)
-  | [] => []          -- IndexError in Python; unreachable (`stack_nonempty`)
+  | [] => []          -- never used on an empty stack: `declareSort` / `declareVar` raise IndexError first
   | l :: r => (x :: l) :: r
 
-/-- `_declare_sort` (F34: declares the sort *declaration*, by name and arity) -/
+/-- `_declare_sort` (F34: declares the sort *declaration*, by name and arity); `self.declared_sorts[-1]` raises
+    IndexError on an empty stack -- after the command was sent and acknowledged -/
 def declareSort (d : SortDecl) : M S Unit := do
   sendSilent (.declareSort d)
-  M.modify fun w => { w with sorts := addTop d w.sorts }
+  let w ← M.get
+  if w.sorts.isEmpty then M.throw .indexError
+  else M.modify fun w => { w with sorts := addTop d w.sorts }
 
 /-- `_declare_variable` -/
 def declareVar (s : Sym) : M S Unit := do
   sendSilent (.declareFun s)
-  M.modify fun w => { w with vars := addTop s w.vars }
+  let w ← M.get
+  if w.vars.isEmpty then M.throw .indexError
+  else M.modify fun w => { w with vars := addTop s w.vars }
 
 /-- `for s in sorts: if all(s not in ds for ds in self.declared_sorts): self._declare_sort(s)` -/
 def declareMissingSorts : List SortDecl → M S Unit
@@ -150,10 +157,21 @@ def pushBody (n : Nat) : M S Unit := do
   sendSilent (.push n)
   M.modify fun w => { w with vars := List.replicate n [] ++ w.vars, sorts := List.replicate n [] ++ w.sorts }
 
+/-- `for _ in range(levels): self.declared_vars.pop(); self.declared_sorts.pop()`: the stacks after the loop and
+    whether it ran to its end (`list.pop()` on an empty list raises IndexError; what was popped stays popped) -/
+def popLevels : Nat → List (List Sym) → List (List SortDecl) → (List (List Sym) × List (List SortDecl)) × Bool
+  | 0, v, s => ((v, s), true)
+  | _ + 1, [], s => (([], s), false)
+  | _ + 1, _ :: v, [] => ((v, []), false)
+  | n + 1, _ :: v, _ :: s => popLevels n v s
+
 /-- body of `pop(levels)` (F23) -/
 def popBody (n : Nat) : M S Unit := do
   sendSilent (.pop n)
-  M.modify fun w => { w with vars := w.vars.drop n, sorts := w.sorts.drop n }
+  let w ← M.get
+  let r := popLevels n w.vars w.sorts
+  M.modify fun w => { w with vars := r.1.1, sorts := r.1.2 }
+  if r.2 then pure () else M.throw .indexError
 
 /-- `@clear_pending_pop`: `if self.pending_pop: self.pending_pop = False; self.pop()` -/
 def clearPendingPop : M S Unit := do
